@@ -6,6 +6,7 @@ import (
 	goast "go/ast"
 	goparser "go/parser"
 	gotoken "go/token"
+	"io"
 	"strconv"
 	"strings"
 	"sync"
@@ -31,10 +32,20 @@ var c16Opts = []dumpOpts{{false, false}, {true, false}, {false, true}, {true, tr
 
 func (o dumpOpts) String() string { return fmt.Sprintf("tokens=%v,positions=%v", o.tok, o.pos) }
 
+// bareWriter has nothing but Write (no WriteString, no Flush): what a pipe, a socket, a hash or a gzip writer offers.
+type bareWriter struct{ buf *bytes.Buffer }
+
+func (w bareWriter) Write(b []byte) (int, error) { return w.buf.Write(b) }
+
 func dumpTree(n ast.Vertex, o dumpOpts) (string, *obs.Panic) {
 	var buf bytes.Buffer
+	// (chosen from the arguments, not from a counter: this function runs on several goroutines in the race twins)
+	var wr io.Writer = &buf
+	if o.tok != o.pos {
+		wr = bareWriter{&buf}
+	}
 	p := obs.Try(func() {
-		d := dumper.NewDumper(&buf)
+		d := dumper.NewDumper(wr)
 		if o.tok {
 			d = d.WithTokens()
 		}
@@ -49,9 +60,27 @@ func dumpTree(n ast.Vertex, o dumpOpts) (string, *obs.Panic) {
 // One Dumper may be used for many trees (Dump can be called again): the worker keeps one long-lived dumper
 // per option set, writing through a retargetable writer, and half of the parsed-tree cases go through them —
 // whatever a dumper remembers from the trees it has seen shows as a difference from the tree in hand.
-type c16Writer struct{ buf *bytes.Buffer }
+type c16Writer struct {
+	buf       *bytes.Buffer
+	failAfter int // > 0: fail once this many bytes are in the buffer
+}
 
-func (w *c16Writer) Write(b []byte) (int, error) { return w.buf.Write(b) }
+func (w *c16Writer) Write(b []byte) (int, error) {
+	if w.failAfter > 0 && w.buf.Len()+len(b) > w.failAfter {
+		return 0, fmt.Errorf("verif: injected write error")
+	}
+	return w.buf.Write(b)
+}
+
+var (
+	c16LongCalls int
+	// only C16 injects aborted dumps into the long-lived dumpers (its oracle reads the dump back and ignores
+	// indentation; C13 compares bytes, and after a dump that broke off the indentation of that Dumper object is
+	// legitimately off — the operation did not complete)
+	c16AbortEvery  = 0
+	c16AbortedUses = map[dumpOpts]int{}
+	c16Aborted     = map[dumpOpts]bool{} // dumpers that have an aborted dump behind them (indentation may be shifted from then on)
+)
 
 var c16Long = map[dumpOpts]*struct {
 	w *c16Writer
@@ -75,11 +104,22 @@ func dumpTreeLongLived(n ast.Vertex, o dumpOpts) (string, *obs.Panic) {
 		}{w, d}
 		c16Long[o] = e
 	}
+	c16LongCalls++
+	if c16AbortEvery > 0 && c16LongCalls%c16AbortEvery == 0 {
+		// a dump of this tree that breaks off after a few bytes (the writer fails, the dumper panics, the caller
+		// recovers) — and then the same dumper is used again: it must still be the dumper it was configured to be
+		e.w.buf, e.w.failAfter = &bytes.Buffer{}, 11+c16LongCalls%200
+		if obs.Try(func() { e.d.Dump(n) }) != nil {
+			c16Aborted[o] = true
+		}
+		e.w.failAfter = 0
+	}
 	var buf bytes.Buffer
 	e.w.buf = &buf
 	p := obs.Try(func() { e.d.Dump(n) })
 	if p != nil {
-		delete(c16Long, o) // a dumper interrupted by a panic is not used again
+		delete(c16Long, o) // a dumper that panicked with a working writer is replaced
+		delete(c16Aborted, o)
 	}
 	return buf.String(), p
 }
@@ -391,6 +431,7 @@ func c16CheckWith(c *core.Ctx, n ast.Vertex, w core.Witness, longLived bool) (li
 	for _, o := range c16Opts {
 		out, p := "", (*obs.Panic)(nil)
 		if longLived {
+			c16AbortEvery = 37
 			out, p = dumpTreeLongLived(n, o)
 			w = w.With("dumper", "one Dumper used for many trees")
 			c.Add("dumps_by_a_long_lived_dumper", 1)
@@ -403,12 +444,22 @@ func c16CheckWith(c *core.Ctx, n ast.Vertex, w core.Witness, longLived bool) (li
 		}
 		if longLived {
 			// the rendering of a tree does not depend on what the dumper rendered before: byte for byte the text of a new dumper
-			if fresh, fp := dumpTree(n, o); fp == nil && fresh != out {
+			if fresh, fp := dumpTree(n, o); fp == nil && fresh != out && !c16Aborted[o] {
 				c.Violation("dump|long-lived-dumper-differs-from-new-dumper", "a Dumper that has dumped other trees before renders this tree differently from a new Dumper ("+o.String()+"): "+obs.FirstDiff(fresh, out), w.With("options", o.String()))
 				delete(c16Long, o)
 				continue
 			}
-			c.Add("long_lived_dumps_equal_to_new_dumper", 1)
+			if c16Aborted[o] {
+				c.Add("dumps_by_a_dumper_with_an_aborted_dump_behind_it", 1)
+				if c16AbortedUses[o]++; c16AbortedUses[o] >= 8 {
+					// a new dumper takes over, so that byte equality with a new dumper is observed again
+					delete(c16Long, o)
+					delete(c16Aborted, o)
+					delete(c16AbortedUses, o)
+				}
+			} else {
+				c.Add("long_lived_dumps_equal_to_new_dumper", 1)
+			}
 		}
 		src := "package p\n\nvar _ = []interface{}{\n" + out + "}\n"
 		fset := gotoken.NewFileSet()
